@@ -189,7 +189,8 @@ def run(rep, tier, parts=("interp", "api", "jit")):
         r10 = fe["r10"]
         r10_ok = r10 is not None and (r10 == T.op("add", 64, ("sel", imodel.REG, T.K(64, 10), 64), T.K(64, F.const("ebpf::LOCAL_FUNCTION_STACK_SIZE")))
                                       if usage_kind == "default" else (r10[0] == "op" and r10[1] == "add" and frame_name in repr(r10) and "stack_usage" in repr(r10)))
-        rep.ob(ra, "exit/%s" % usage_kind, copy_ok and rng_ok and pc_ok and r10_ok and not fe["other_regs"] and fe["idx_new"] == idx_m1 and T.cmp("ult", 64, T.K(64, 0), idx) in p["conds"],
+        rep.ob(ra, "exit/%s" % usage_kind, copy_ok and rng_ok and pc_ok and r10_ok and not fe["other_regs"] and fe["idx_new"] == idx_m1 and
+               any(c in p["conds"] for c in (T.cmp("ult", 64, T.K(64, 0), idx), T.cmp("ne", 64, idx, T.K(64, 0)), T.lnot(T.cmp("eq", 64, idx, T.K(64, 0))))),
                "exit arm inside a callee (%s frame size): restores r6..r9, pc and r10 from frame[idx-1]" % usage_kind,
                expected="idx > 0; idx -= 1; r6..r9 := frame[idx].saved; pc := frame[idx].ret; r10 raised by usage(frame[idx])",
                found={"copy": copy_ok, "range_6_9": rng_ok, "pc": pc_ok, "r10": T.show(r10)[:120] if r10 else None, "other": fe["other_regs"]})
